@@ -373,6 +373,14 @@ class _RowMap(_HarnessMixin, strax.Plugin):
         return res
 
 
+class _RowMapCI(_RowMap):
+    """Row-wise plugin whose compute takes chunk_i (strax then counts chunks itself; in per-chunk jobs the counter
+    runs over the dependency's chunk numbers)."""
+
+    def compute(self, chunk_i, start, end, **kw):
+        return _RowMap.compute(self, start, end, **kw)
+
+
 class _Filter(_HarnessMixin, strax.Plugin):
     def compute(self, start, end, **kw):
         n = self.H_NODE
@@ -707,6 +715,8 @@ def build_classes(spec, log=None, fault=None, prefix="H"):
         nm = names_of(n)
         base = BASES[n["kind"]]
         opts = n.get("opts", {})
+        if n["kind"] == "rowmap" and opts.get("takes_chunk_i"):
+            base = _RowMapCI
         attrs = {
             "H_NODE": n, "H_LOG": log, "H_KINDS": kinds,
             "H_FAULT": fault if (fault is not None and fault["node"] in nm) else None,
